@@ -493,32 +493,73 @@ impl Cfg {
     }
 }
 
-/// the text of one password segment: ASCII, distinct first letter per id; "lat" = Latin-1 letters
-fn seg_string(id: &str, len: usize) -> String {
+/// ASCII run of a password segment: the key itself, then digits; distinct first letters per key
+fn ascii_run(key: &str, len: usize) -> Vec<u8> {
+    let kb = key.as_bytes();
+    (0..len).map(|i| if i < kb.len() { kb[i] } else { b'0' + ((i * 7 + kb[0] as usize) % 10) as u8 }).collect()
+}
+
+/// the k-byte character at the 127-byte cut and its sibling with the same first k-1 bytes
+/// (U+00E9 / U+00E3, U+20AC / U+20A9, U+20000 / U+2000B: all mapped to themselves by SASLprep)
+fn cut_char(k: usize, sibling: bool) -> Vec<u8> {
+    let c = match (k, sibling) {
+        (2, false) => '\u{e9}',
+        (2, true) => '\u{e3}',
+        (3, false) => '\u{20ac}',
+        (3, true) => '\u{20a9}',
+        (4, false) => '\u{20000}',
+        (4, true) => '\u{2000b}',
+        _ => panic!("cut character of {k} bytes"),
+    };
+    let b = c.to_string().into_bytes();
+    assert_eq!(b.len(), k);
+    b
+}
+
+/// The bytes of one password segment (segments are BYTE ranges of the prepared password: a multi-byte
+/// character may be split between two segments, see MC_SecurityAlgorithms.tla):
+///   "lat"  Latin-1 letters;  Hkj  ASCII + first j bytes of the k-byte character;  Tkj  its other k-j bytes + ASCII;
+///   Ukj  the other k-j bytes of the sibling character + ASCII;  Ckj  the ASCII part of Hkj;
+///   Fk  ASCII + the whole k-byte character;  Gk  the ASCII part of Fk;  anything else: ASCII.
+fn seg_bytes(id: &str, len: usize) -> Vec<u8> {
     if id == "lat" {
-        return "a\u{e9}\u{fc}".to_string();
+        return "a\u{e9}\u{fc}".as_bytes().to_vec();
     }
-    let idb = id.as_bytes();
-    (0..len)
-        .map(|i| {
-            if i < idb.len() {
-                idb[i] as char
-            } else {
-                (b'0' + ((i * 7 + idb[0] as usize) % 10) as u8) as char
-            }
-        })
-        .collect()
+    let b = id.as_bytes();
+    let dig = |x: u8| (x as char).to_digit(10).map(|d| d as usize);
+    if b.len() == 3 && b"HTUC".contains(&b[0]) {
+        if let (Some(k), Some(j)) = (dig(b[1]), dig(b[2])) {
+            let hkey = format!("H{k}{j}");
+            return match b[0] {
+                b'H' => [ascii_run(&hkey, len - j), cut_char(k, false)[..j].to_vec()].concat(),
+                b'C' => ascii_run(&hkey, len),
+                b'T' => [cut_char(k, false)[j..].to_vec(), ascii_run(id, len - (k - j))].concat(),
+                _ => [cut_char(k, true)[j..].to_vec(), ascii_run(id, len - (k - j))].concat(),
+            };
+        }
+    }
+    if b.len() == 2 && b"FG".contains(&b[0]) {
+        if let Some(k) = dig(b[1]) {
+            let fkey = format!("F{k}");
+            return if b[0] == b'F' { [ascii_run(&fkey, len - k), cut_char(k, false)].concat() } else { ascii_run(&fkey, len) };
+        }
+    }
+    ascii_run(id, len)
 }
 
 fn pw_string(segs: &Value) -> String {
-    segs.as_array()
-        .map(|a| a.iter().map(|s| seg_string(s["id"].as_str().unwrap(), s["len"].as_u64().unwrap() as usize)).collect::<String>())
-        .unwrap_or_default()
+    let bytes: Vec<u8> = segs
+        .as_array()
+        .map(|a| a.iter().flat_map(|s| seg_bytes(s["id"].as_str().unwrap(), s["len"].as_u64().unwrap() as usize)).collect())
+        .unwrap_or_default();
+    String::from_utf8(bytes).expect("password segments do not concatenate to UTF-8")
 }
 
 /// Password preparation of the reference, restricted to the classes used here: ASCII is the identity in
 /// PDFDocEncoding and under SASLprep; U+00A1..U+00FF (except U+00AD) have their Latin-1 code in
-/// PDFDocEncoding (ISO 32000-1 Annex D.2) and are unchanged by SASLprep (NFKC of precomposed letters).
+/// PDFDocEncoding (ISO 32000-1 Annex D.2) and are unchanged by SASLprep (NFKC of precomposed letters); for
+/// revisions 5-6 also U+20AC, U+20A9, U+20000, U+2000B (assigned in Unicode 3.2, no NFKC mapping, not prohibited:
+/// stringprep 0.1.5 returns them unchanged - probed).
 fn prep(r: i64, s: &str) -> Vec<u8> {
     if r <= 4 {
         s.chars()
@@ -531,7 +572,10 @@ fn prep(r: i64, s: &str) -> Vec<u8> {
     } else {
         for c in s.chars() {
             let u = c as u32;
-            assert!((0x20..0x7F).contains(&u) || (0xC0..=0xFF).contains(&u) && u != 0xD7 && u != 0xF7, "password class outside the supported domain");
+            assert!(
+                (0x20..0x7F).contains(&u) || (0xC0..=0xFF).contains(&u) && u != 0xD7 && u != 0xF7 || [0x20AC, 0x20A9, 0x20000, 0x2000B].contains(&u),
+                "password class outside the supported domain"
+            );
         }
         s.as_bytes().to_vec()
     }
